@@ -60,9 +60,6 @@ func c12Timeouts(r *verdict.Run) {
 	var wg sync.WaitGroup
 	for fi, f := range blkForms {
 		for ti, t := range timeouts {
-			if r.Tier != "thorough" && (fi+ti)%2 == 1 {
-				continue
-			}
 			wg.Add(1)
 			go func(f blkForm, t string, n int) {
 				defer wg.Done()
@@ -177,9 +174,6 @@ func c12Unblock(r *verdict.Run, race bool) {
 	for _, f := range blkForms {
 		for _, where := range []string{"not-blocked", "before-begin", "before-register", "after-register", "before-capture", "waiting", "with-push", "unknown-id", "stale-then-block"} {
 			for _, mode := range []string{"", "TIMEOUT", "ERROR"} {
-				if r.Tier != "thorough" && mode == "TIMEOUT" {
-					continue
-				}
 				all = append(all, scn{f, where, mode})
 			}
 		}
